@@ -17,7 +17,7 @@ RULE = ("Histories = key set and modulus as in C11, initial value in {default, s
         "the key set plus the initial values, read back with counter[keys] after every batch.  Metamorphic sub-check: the same "
         "multiset of samples under a different modulus, permuted, and split into batches differently gives identical totals.  "
         "Non-trivial = at least two batches, a batch containing absent samples, and a non-default initial state."
-        "  Initial per-key totals also as explicitly typed arrays (uint64 / int64 far above 2**53, int32, uint16, float64); key arrays and read-back totals are overwritten by the caller afterwards.")
+        "  Initial per-key totals also as explicitly typed arrays (uint64 / int64 far above 2**53, int32, uint16, float64); key arrays and read-back totals are overwritten by the caller afterwards.  Large-table sub-check: 13-400 keys with batches much smaller than the table (a key repeated inside a small batch) vs a dictionary count after every batch.")
 ASSUMPTIONS = ["samples are representable in the key dtype (a wider-dtype sample that wraps onto a key is outside the stated domain)"]
 
 
@@ -269,9 +269,99 @@ def meta_case(draw, tier):
             "s": draw(st.lists(st.integers(0, 40), max_size=25)), "variant": variant}
 
 
+# ---------------------------------------------------------------- large tables, small batches (table-size dimension)
+
+BIG_DT = {"int64": (-2**62, 2**62), "int32": (-2**31, 2**31 - 1), "uint32": (0, 2**32 - 1), "int16": (-2**15, 2**15 - 1), "uint64": (0, 2**63)}
+
+
+def big_keys(case):
+    lo, hi = BIG_DT[case["dt"]]
+    keys, k = [], max(lo, min(hi, case["start"]))
+    for g in case["gaps"]:
+        if k > hi:
+            break
+        keys.append(k)
+        k += g
+    return keys
+
+
+def big_totals(dt, keys, mod, ikind, init, batches):
+    from npstructures import Counter
+    karr = np.array(keys, dtype=dt)
+    kw = {} if mod is None else {"mod": mod}
+    if ikind == "default":
+        c = Counter(karr, **kw)
+    elif ikind == "scalar":
+        c = Counter(karr, init, **kw)
+    else:
+        c = Counter(karr, np.arange(len(keys)) % 7 + init, **kw)
+    out = []
+    for b in batches:
+        c.count(np.array(b, dtype=dt))
+        out.append([int(x) for x in np.asarray(c[karr])])
+    return out
+
+
+def body_big(case, ctx):
+    dt, keys = case["dt"], big_keys(case)
+    n = len(keys)
+    lo, hi = BIG_DT[dt]
+    ks = set(keys)
+    batches = []
+    for b in case["batches"]:
+        cur = []
+        for kind, i in b:
+            if kind == "k":
+                cur.append(keys[i % n])
+            else:
+                c = keys[i % n] + 1
+                if c not in ks and c <= hi:
+                    cur.append(c)
+        batches.append(cur)
+    mod = None if case["mod"] is None else max(1, case["mod"] % (3 * n))
+    ikind, init = case["ikind"], case["init"]
+    tot = [0] * n if ikind == "default" else [init] * n if ikind == "scalar" else [j % 7 + init for j in range(n)]
+    pos = {k: j for j, k in enumerate(keys)}
+    exp = []
+    for cur in batches:
+        for s_ in cur:
+            if s_ in pos:
+                tot[pos[s_]] += 1
+        exp.append(list(tot))
+    rep = any(len([x for x in cur if x in ks]) > len({x for x in cur if x in ks}) for cur in batches)
+    small = any(0 < len(cur) * 16 < n for cur in batches)
+    ctx.label("dt:" + dt, "init:" + ikind, "keys:" + ("<32" if n < 32 else "<128" if n < 128 else ">=128"),
+              "repeat-in-batch" if rep else "no-repeat", "batch-much-smaller-than-table" if small else "batch-comparable")
+    ctx.nt(len(batches) >= 2 and rep and small)
+    got = lib(big_totals, dt, keys, mod, ikind, init, batches)
+    if not got.ok:
+        raise Violation("large-table:refused", got=got.brief(), n_keys=n, batches=batches)
+    for step, (e, g) in enumerate(zip(exp, got.value)):
+        if e != g:
+            bad = [j for j in range(n) if e[j] != g[j]][:5]
+            raise Violation("large-table:totals", step=step, batch=batches[step], n_keys=n,
+                            wrong=[{"key": keys[j], "expected": e[j], "got": g[j]} for j in bad])
+
+
+@st.composite
+def big_case(draw, tier):
+    dt = draw(st.sampled_from(sorted(BIG_DT)))
+    n = draw(st.sampled_from([17, 33, 64, 100, 257])) if draw(st.integers(0, 3)) else draw(st.integers(13, 400))
+    gaps = draw(st.lists(st.integers(1, 5), min_size=n, max_size=n)) if draw(st.booleans()) else [draw(st.integers(1, 1000))] * n
+    lo, hi = BIG_DT[dt]
+    start = draw(st.one_of(st.just(lo), st.just(0), st.integers(lo, hi)))
+    samp = st.tuples(st.sampled_from(["k", "k", "k", "a"]), st.integers(0, 400)).map(list)
+    batch = st.one_of(st.lists(samp, max_size=4), st.lists(samp, max_size=4).map(lambda b: b + b[:1] * 2), st.lists(samp, max_size=60))
+    return {"dt": dt, "start": start, "gaps": gaps, "mod": draw(st.one_of(st.none(), st.integers(1, 2000))),
+            "ikind": draw(st.sampled_from(["default", "scalar", "array"])), "init": draw(st.integers(0, 9)),
+            "batches": draw(st.lists(batch, min_size=1, max_size=5))}
+
+
 SUBCHECKS = [
     SubCheck("history", body_history, kind="machine", machine=machine, steps=8, quick=5000, thorough=500000, shards_quick=12,
              doc="rule-based state machine: count(batch) sequences vs collections.Counter-style model, read back after every batch"),
     SubCheck("metamorphic", body_meta, meta_case, quick=5000, thorough=600000, shards_quick=4,
              doc="same sample multiset under another modulus / permuted / split into batches differently -> identical totals"),
+    SubCheck("large-table", body_big, big_case, quick=3000, thorough=300000, shards_quick=4,
+             doc="key sets of 13-400 keys, 1-5 batches from a few samples (with a key repeated inside a batch) up to 60 samples, read back after every batch vs a dictionary count"),
 ]
